@@ -181,6 +181,18 @@ def runtime_battery():
                 "Y\n1\n", "CLK Y U2\nC 1 0\n", "U2 CLK\n1 C\n"):
         b.append(Scenario(src, S3, default_answer=[0, 0, 0, 0, 0], max_rows=40,
                           note="signal list longer than the header (unused pins around the named ones), clocked / X rows"))
+    # fifth round: `C` in the read-back column of a bidirectional signal is no clock column
+    Sb = [("in", "CLK", 1, 0), ("bidir", "S", 4, "Z"), ("out", "Y", 8)]
+    for src in ("CLK S_out Y\n0 C 1\n", "S S_out\n1 C\n", "S_out\nC\n", "CLK S S_out Y\nC Z C X\n", "S_out CLK\nC C\n"):
+        b.append(Scenario(src, Sb, default_answer=[0, 0], max_rows=20, note="C in the _out column of a bidirectional signal: rejected at bind time, never a panic"))
+    # fifth round: a row whose output extraction fails inside a loop, iteration continued
+    Sv = [("in", "A", 8, 0), ("out", "Y", 8), ("out", "B", 8)]
+    b.append(Scenario("A Y V\ndeclare V = 8 / B;\nlet k = 7;\nloop(i,3)\n(i+k) X X\nend loop\n(k) X X\n", Sv, default_answer=[0, 1],
+                      answers={2: [0, 0]}, stop_on_err=False, max_rows=20, note="virtual signal fails on one row inside a loop, caller keeps iterating"))
+    b.append(Scenario("A Y V\ndeclare V = B + 1;\nloop(i,2)\nloop(j,2)\n(i+j) X X\nend loop\nend loop\n", Sv, default_answer=[0, 1],
+                      answers={2: [0, "Z"], 3: ["X", "X"]}, stop_on_err=False, max_rows=20, note="virtual signal reads Z / X inside nested loops"))
+    b.append(Scenario("A Y B\nloop(i,3)\n(i) X X\nend loop\n", Sv, layout=["Y", "B"], default_answer=[0, 1], layout_at={2: ["B", "Y"]},
+                      stop_on_err=False, max_rows=20, note="answer in the wrong order on one row inside a loop"))
     b.append(Scenario("CLK Y\nC 1\n", [("in", "CLK", 1, 0), ("out", "Y", 8), ("out", "Q", 8)], default_answer=[0, 0],
                       note="one more output than header columns"))
     b.append(Scenario("CLK\nC\n", [("in", "CLK", 1, 0), ("out", "Y", 8), ("out", "Q", 8), ("out", "R", 8)], default_answer=[0, 0, 0],
@@ -397,3 +409,21 @@ def masks_no_panic(O):
 def kani_operators_no_panic(O):
     from . import kani_obs
     kani_obs.expr_kernels(O, "C10", ["binop_no_panic", "binop_divrem_zero_is_error", "unaryop"])
+
+
+@obligation("C10/frames-survive-faults", profiles=("dev",),
+            desc="the invariant behind EndIterateInner's counter read-back also after a failed row: extract_output_values swaps "
+                 "the variable maps back on every path (a virtual signal that fails, an answer in the wrong order), so the loop "
+                 "frame holding the counter is visible again when the iteration ends")
+def frames_survive_faults(O):
+    from . import C04, dri
+    C04.swap_restored(O, dri.Rep({"family": "runtime"}, runtime_battery(), runtime_judge))
+
+
+@obligation("C10/clock-columns-are-checked-by-name", profiles=("dev",),
+            desc="the other half of the invariant behind the unreachable!() arms: at bind time a column that holds `C` is "
+                 "accepted exactly for input-capable signals of that very name (not for the `<name>_out` read-back column of a "
+                 "bidirectional signal, not by position)")
+def clock_columns_checked_by_name(O):
+    from . import C11, dri
+    C11.clock_inputs_core(O, dri.Rep({"family": "runtime"}, runtime_battery(), runtime_judge))
